@@ -9,7 +9,7 @@ Op lines (one case = `init`, then any number of `ls` / `probe` / `put`):
   ls                                            → <logical>=<tok> ... (sorted by logical path) | %e
   probe a,b,c                                   → a=s401,b=pass,c=pass
   put ep=configuration|apply_flows m=PUT|GET|POST body=items|badjson|null items=<l>:<tok>,... |%e
-      fault=none|backup|save:<l>|sunlink:<l>|rread|rstore:<l>|runlink:<l>|haproxy:<r>|clean:<g|um> gate=0|1 corder=g,um|um,g
+      fault=none|backup|save:<l>|sunlink:<l>|rread|rstore:<l>|runlink:<l>|haproxy:<r>|hacall:<managed|body|capture>:<l>|clean:<g|um> gate=0|1 corder=g,um|um,g
       [rpos=first|last] probes=a,b              → status=<n> phase=<p> mid=<vec>;<vec> | mid=%e
 
   hold <put words>                              → parked | (the put's answer, if it ended before its Backup)
@@ -77,7 +77,7 @@ def tokIs (pre : Char) (t : String) : Bool :=
   | [] => false
 
 def fileValid : Path × Bytes → Bool
-  | (.flow n, t) => !loaded n || tokIs 'v' t || tokIs 'w' t   -- the flows loader globs `*.yaml` of the directory itself only
+  | (.flow n, t) => !loaded n || tokIs 'v' t || tokIs 'w' t || tokIs 'b' t   -- the flows loader globs `*.yaml` of the directory itself only
   | (.quota n, t) => !loaded n || tokIs 'q' t  -- the quota loader skips sub-directories too
   | (.gateway, t) => tokIs 'g' t || t == "empty"
   | _ => true
@@ -86,9 +86,9 @@ def envValidates (d : Disk) : Bool := d.all fileValid
 
 def envMetricsOk (d : Disk) : Bool :=
   match d.get .userMetrics with
-  | some t => tokIs 'm' t
+  | some t => tokIs 'm' t || tokIs 'n' t
   | none => match d.get .defaultMetrics with
-    | some t => tokIs 'm' t
+    | some t => tokIs 'm' t || tokIs 'n' t
     | none => false
 
 def envHasEndpoints (d : Disk) : Bool :=
@@ -101,10 +101,22 @@ def restoreOrderOf (fault : Option Step) (first : Bool) (L : List Path) : List P
     if first then L.filter (· == x) ++ L.filter (· != x) else L.filter (· != x) ++ L.filter (· == x)
   | _ => L
 
-def mkEnv (fault : Option Step) (corder : List Path) (rfirst : Bool := true) (backupBroken : Bool := false) : Env :=
+/-- Is the refused admin call made at all when the engine switches to `d`? `managed_endpoint` for every loaded
+    flow / quota file, `include_body_from` only for flows with a processor that needs the body (token b<k>),
+    `capture_req_from` for none of the flows of this harness. -/
+def haCallMade (hc : String × Path) (d : Disk) : Bool :=
+  match d.get hc.2 with
+  | none => false
+  | some t =>
+    let isLoaded := match hc.2 with | .flow n => loaded n | .quota n => loaded n | _ => false
+    isLoaded && (hc.1 == "managed" || (hc.1 == "body" && tokIs 'b' t))
+
+def mkEnv (fault : Option Step) (corder : List Path) (rfirst : Bool := true) (backupBroken : Bool := false)
+    (haCall : Option (String × Path) := none) : Env :=
   { plan := fun s => (backupBroken && decide (s = .backupRead)) ||
       (match fault with | some f => decide (s = f) | none => false),
-    validates := envValidates, metricsOk := envMetricsOk, hasEndpoints := envHasEndpoints,
+    validates := envValidates, metricsOk := envMetricsOk,
+    hasEndpoints := (match haCall with | some hc => haCallMade hc | none => envHasEndpoints),
     cleanOrder := corder, restoreOrder := restoreOrderOf fault rfirst }
 
 def fmtDisk (d : Disk) : String :=
@@ -115,7 +127,7 @@ def verdict (o : Option Bytes) : String :=
   match o with
   | none => "pass"
   | some t =>
-    if tokIs 'v' t || tokIs 'w' t then
+    if tokIs 'v' t || tokIs 'w' t || tokIs 'b' t then
       match (t.drop 1).toString.toNat? with
       | some k => "s" ++ toString (400 + k)
       | none => "s?"
@@ -165,7 +177,16 @@ def parseItems (s : String) : Option (List Item) :=
     else none
   | none => none
 
+/-- `hacall:<managed|body|capture>:<logical>`: in reload round 1 the stub HAProxy refuses that one admin call
+    for the endpoints of that file (a `Step.haproxy 1` that only exists if the call is made). -/
+def parseHaCall (s : String) : Option (String × Path) :=
+  match s.splitOn ":" with
+  | ["hacall", call, l] =>
+    if call == "managed" || call == "body" || call == "capture" then (parsePath l).map fun p => (call, p) else none
+  | _ => none
+
 def parseFault (s : String) : Option (Option Step) :=
+  if (parseHaCall s).isSome then some (some (.haproxy 1)) else
   if s == "none" then some none
   else if s == "backup" then some (some .backupRead)
   else if s == "rread" then some (some .restoreRead)
@@ -183,6 +204,7 @@ def parseFault (s : String) : Option (Option Step) :=
 
 structure Put where
   req : Req
+  haCall : Option (String × Path) := none   -- hacall:<call>:<file>: the one admin call the stub refuses (round 1)
   fault : Option Step
   corder : List Path
   rfirst : Bool
@@ -202,6 +224,7 @@ def parsePut (ws : List String) : Option Put := do
              else if b == "badjson" then some Body.badJson
              else if b == "null" then some Body.null else none
   let fault ← (kv ws "fault").bind parseFault
+  let haCall := (kv ws "fault").bind parseHaCall
   let gate ← match kv ws "gate" with | some "0" => some false | some "1" => some true | _ => none
   let corder ← match kv ws "corder" with
     | some "g,um" => some [Path.gateway, Path.userMetrics]
@@ -214,7 +237,7 @@ def parsePut (ws : List String) : Option Put := do
     | _ => none
   let probes ← kv ws "probes"
   pure { req := { ep := ep, methodPut := m == "PUT", body := body, gate := gate },
-         fault := fault, corder := corder, rfirst := rfirst, probes := probeNames probes }
+         haCall := haCall, fault := fault, corder := corder, rfirst := rfirst, probes := probeNames probes }
 
 def parseEntries (ws : List String) : Option Disk :=
   ws.foldlM (init := ([] : Disk)) fun d w =>
@@ -283,7 +306,8 @@ def fmtEndpoints (eps : List Path) : String :=
 
 structure RunSt where
   reg : Registry := Registry.empty
-  regNA : Bool := false     -- a HAProxy admin call was made to fail: the managed set is not predicted
+  regNA : Bool := false     -- the roll-back's HAProxy update was made to fail: the managed set is not predicted
+  regFuzzy : Bool := false  -- a HAProxy update failed half-way: not predicted until the next `tick`
   dirLink : Bool := false   -- a link to a directory sits in the tree: every Backup() fails
   st : State := ⟨[], .uninit⟩
   live : Bool := false
@@ -302,11 +326,23 @@ def switchesOf (env : Env) (st : State) (req : Req) : List (Engine × Engine) :=
   | _ :: tl => rg.mid.zip (tl ++ [rg.engine])
 
 def advanceReg (s : RunSt) (p : Put) : RunSt :=
-  let env := mkEnv p.fault p.corder p.rfirst s.dirLink
-  let isHa := match p.fault with | some (.haproxy _) => true | _ => false
-  let reg := (switchesOf env s.st p.req).foldl
-    (fun r (sw : Engine × Engine) => r.switch (endpointsOf sw.1) (endpointsOf sw.2)) s.reg
-  { s with reg := reg, regNA := s.regNA || isHa }
+  let env := mkEnv p.fault p.corder p.rfirst s.dirLink p.haCall
+  let r := handle env s.st p.req
+  let sws := switchesOf env s.st p.req
+  -- reload round of each switch: a 200 switched in round 1; a rolled-back push switches in round 2, and in
+  -- round 1 too if it failed only after the switch
+  let rounds : List Nat := if sws.length == 2 then [1, 2] else if r.status == 200 then [1] else [2]
+  let reg := (sws.zip rounds).foldl
+    (fun (rg : Registry) (x : (Engine × Engine) × Nat) =>
+      let target := match x.1.2 with | .ready d => d | .uninit => []
+      -- the HAProxy update of this switch fails: the request serial is consumed, nothing is scheduled
+      -- (which of its calls got through before depends on Go's map order: `managed` answers n/a until the
+      -- un-manage delay has removed whatever that was)
+      if env.plan (.haproxy x.2) && env.hasEndpoints target then { rg with serial := rg.serial + 1 }
+      else rg.switch (endpointsOf x.1.1) (endpointsOf x.1.2)) s.reg
+  let fuzzy := match p.fault with | some (.haproxy 1) => true | _ => false
+  let na := match p.fault with | some (.haproxy 2) => true | _ => false
+  { s with reg := reg, regNA := s.regNA || na, regFuzzy := s.regFuzzy || fuzzy }
 
 def runStep (s : RunSt) (line : String) : RunSt × String :=
   match words line with
@@ -317,7 +353,7 @@ def runStep (s : RunSt) (line : String) : RunSt × String :=
     | some (d, dirl) =>
       let r := reload (mkEnv none []) 1 false d .uninit []
       if r.ok then
-        ({ s with st := ⟨d, r.engine⟩, live := true, dirLink := dirl, regNA := false,
+        ({ s with st := ⟨d, r.engine⟩, live := true, dirLink := dirl, regNA := false, regFuzzy := false,
                   reg := Registry.empty.manage (endpointsOfDisk d) }, "ok")
       else ({ s with live := false }, "err:load")
   | ["ls"] => if s.live then (s, fmtDisk s.st.disk) else (s, "skip")
@@ -328,14 +364,14 @@ def runStep (s : RunSt) (line : String) : RunSt × String :=
     | some p =>
       if !s.live then (s, "skip") else
       if s.held.isSome && (p.fault.isSome || p.req.gate) then (s, "bad-op") else
-      let r := handleLocked (mkEnv p.fault p.corder p.rfirst s.dirLink) s.st s.held.isSome p.req
+      let r := handleLocked (mkEnv p.fault p.corder p.rfirst s.dirLink p.haCall) s.st s.held.isSome p.req
       let s := if s.held.isSome then s else advanceReg s p
       ({ s with st := r.state },
        s!"status={r.status} phase={fmtPhase r.phase} mid={fmtMid p.probes r.mid}")
-  | ["tick"] => if s.live then ({ s with reg := s.reg.tick }, "ok") else (s, "skip")
+  | ["tick"] => if s.live then ({ s with reg := s.reg.tick, regFuzzy := false }, "ok") else (s, "skip")
   | ["managed"] =>
     if !s.live then (s, "skip") else
-    if s.regNA then (s, "n/a") else (s, fmtEndpoints s.reg.managed)
+    if s.regNA || s.regFuzzy then (s, "n/a") else (s, fmtEndpoints s.reg.managed)
   | "hold" :: ws =>
     match parsePut ws with
     | none => (s, "bad-op")
@@ -343,7 +379,7 @@ def runStep (s : RunSt) (line : String) : RunSt × String :=
       if !s.live then (s, "skip") else
       if s.held.isSome then (s, "bad-op") else
       -- everything before `Backup()` (method check, JSON decode) happens before the parking point
-      let r := handle (mkEnv p.fault p.corder p.rfirst s.dirLink) s.st p.req
+      let r := handle (mkEnv p.fault p.corder p.rfirst s.dirLink p.haCall) s.st p.req
       if r.phase == .method || r.phase == .decode || r.phase == .nodata then
         (s, s!"status={r.status} phase={fmtPhase r.phase} mid={fmtMid p.probes r.mid}")
       else ({ s with held := some p }, "parked")
@@ -352,7 +388,7 @@ def runStep (s : RunSt) (line : String) : RunSt × String :=
     match s.held with
     | none => (s, "none")
     | some p =>
-      let r := handle (mkEnv p.fault p.corder p.rfirst s.dirLink) s.st p.req
+      let r := handle (mkEnv p.fault p.corder p.rfirst s.dirLink p.haCall) s.st p.req
       let s := advanceReg s p
       ({ s with st := r.state, held := none },
        s!"status={r.status} phase={fmtPhase r.phase} mid={fmtMid p.probes r.mid}")
